@@ -87,7 +87,9 @@ def make_world(rng):
                     permeate_temperature=rng.choice([None, 280.0]))
     comps = [pv.Composition(p=0.2, type='molar'), pv.Composition(p=0.5, type='weight')]
     data = Measurements.from_diffusion_curves_first(cs)
-    return {'m': m, 'mem': mem, 'cs': cs, 'x': x, 'cd': cd, 'comps': comps, 'data': data}
+    real = pvtools.real_curve_sets()
+    hard = Measurements.from_diffusion_curves_first(rng.choice(real)[1]) if real else data
+    return {'m': m, 'mem': mem, 'cs': cs, 'x': x, 'cd': cd, 'comps': comps, 'data': data, 'hard': hard}
 
 
 CALLS = {
@@ -100,6 +102,8 @@ CALLS = {
     'non_ideal_isothermal': lambda w, p: p.non_ideal_isothermal_process(w['cd'], w['cs'], 3, 0.2, include_zero=True),
     'non_ideal_non_isothermal': lambda w, p: p.non_ideal_non_isothermal_process(w['cd'], w['cs'], 3, 0.2),
     'fit_zero': lambda w, p: fit(w['data'], n=1, m=0, include_zero=True, component_index=0),
+    # measured multi-temperature data and higher orders: the optimiser's own failure path (evaluation budget exhausted)
+    'fit_hard': lambda w, p: fit(w['hard'], n=2, m=1, include_zero=False, component_index=0),
     'best_fit': lambda w, p: find_best_fit(w['data'], include_zero=True, component_index=0, n=1, m=0),
     'curve_metrics': lambda w, p: (w['cs'].diffusion_curves[0].get_separation_factor, w['cs'].diffusion_curves[0].get_selectivity, w['cs'].diffusion_curves[0].get_permeances),
 }
@@ -170,7 +174,7 @@ def oracle(rng, tier):
 
 def correspondence(tier, seed):
     import corr_numeric
-    budget = {'process': 10, 'solver': 10, 'thermo': 10, 'curve': 5, 'membrane': 5}
+    budget = {'process': 10, 'solver': 10, 'thermo': 10, 'curve': 5, 'membrane': 5, 'curvemetrics': 5, 'nicurve': 5, 'fit': 5}
     if tier == 'thorough':
         budget = {k: v * 12 for k, v in budget.items()}
     return corr_numeric.run(seed, budget, nmax=30 if tier == 'quick' else 200, tag='C20')
